@@ -6,6 +6,13 @@ Driver for E14 (C18): replays the harness's labels on the composed model (one `N
 client slot five `Notify.Cache.State`s whose `bump`/`announce`/`handle` labels are driven by the
 server model's outputs) and evaluates the C18 monitors on the IMPLEMENTATION's observations.
 
+`listen` / `subscribe` of a 2026-07-28 session are the model labels `listen` (registration section)
+and `listenAck` (acknowledgement write) back to back — the harness has no schedule point between
+them.  With `hold` the server goroutine that runs the handler is parked right after the write of the
+acknowledgement returned (the client has it) until `ackdone`: every other op can be placed in that
+window.  In the model nothing is left to do for the handler there (`ackdone` is a no-op); a tree that
+registers after acknowledging shows up in the window.
+
 Op grammar (one label per record; observation after `=>`):
   config <capT> <capP> <capR> <hook0|hook1>      => ok          caps: unset|on|off
   ttl <ms>                                         => ok
@@ -13,8 +20,9 @@ Op grammar (one label per record; observation after `=>`):
   advance <ms>                                     => hook1: `fired <kinds…>` ; hook0: ok (the harness then emits the cbrun records itself)
   cbrun <kind>                                     => sent@<t> c<slot>:<method>:<stamp>:<handler>…   | none
   connect c<i> <sid> legacy|modern <mask>          => ok | ok listen-held
-  listen c<i>                                      => ack <kinds|->
-  subscribe c<i> u<j> / unsubscribe c<i> u<j>      => ok | noop | ack - u<j>
+  listen c<i> [hold]                               => ack <kinds|-> [parked]
+  subscribe c<i> u<j> [hold] / unsubscribe c<i> u<j>  => ok | noop | ack - u<j> [parked]
+  ackdone c<i> <m|r<j>>                            => ok          (the handler held right after its ack write goes on)
   close c<i>                                       => ok
   rupdated u<j>                                    => sent@<t> …
   list c<i> <tools|prompts|resources|templates|read:j> <n|post|pre>  => ret v<N> hit|miss | held v<N> | pre
@@ -91,6 +99,7 @@ structure DSlot where
   rsubs : List Nat := []
   caches : List (CacheObj × Cache.State) := []
   held : List String := []
+  parked : List String := []   -- listen handlers held right after their ack write: "m", "r<j>"
 
 structure Sys where
   srv : Server := init (fun _ => .unset)
@@ -210,6 +219,15 @@ def firstAck (outs : List Out) : String :=
   | some s => s
   | none => "noack"
 
+/-- Registration section and acknowledgement write of one handler, back to back. -/
+def listenBoth (s : Server) (sid id : Nat) (kinds : List Kind) (uris : List Nat) : Server × List Out :=
+  listenAck (listen s sid id kinds uris) sid id
+
+def holdTok : List String → Option Bool
+  | [] => some false
+  | ["hold"] => some true
+  | _ => none
+
 /-- One label on the composed model: new state and the predicted observation. -/
 def modelStep (y : Sys) (toks : List String) : Sys × String :=
   match toks with
@@ -260,29 +278,44 @@ def modelStep (y : Sys) (toks : List String) : Sys × String :=
                          connected := !gated, caches := freshCaches y }
       (y.setSlot i d, if gated then "ok listen-held" else "ok")
     | _, _ => (y, "bad-op")
-  | ["listen", c] =>
+  | "listen" :: c :: rest =>
+    match parseSlot c, holdTok rest with
+    | some i, some hold =>
+      let d := y.slot i
+      if !d.used || !d.gated then (y, "refused") else
+      let (s, outs) := listenBoth y.srv d.sid 0 d.mask []
+      let a := firstAck outs
+      let parks := hold && a != "noack"
+      let d := { d with gated := false, connected := true, parked := if parks then d.parked ++ ["m"] else d.parked }
+      (({ y with srv := s }).setSlot i d, if parks then a ++ " parked" else a)
+    | _, _ => (y, "bad-op")
+  | "subscribe" :: c :: u :: rest =>
+    match parseSlot c, parseUri u, holdTok rest with
+    | some i, some u, some hold =>
+      let d := y.slot i
+      if !d.used || !d.connected then (y, "refused") else
+      if !d.modern then
+        if hold then (y, "refused") else ({ y with srv := subscribe y.srv d.sid 99 u }, "ok") else
+      if d.rsubs.contains u then (y, "noop") else
+      let (s, outs) := listenBoth y.srv d.sid (u + 1) [] [u]
+      let a := firstAck outs
+      let parks := hold && a != "noack"
+      let d := { d with rsubs := d.rsubs ++ [u], parked := if parks then d.parked ++ [s!"r{u}"] else d.parked }
+      (({ y with srv := s }).setSlot i d, if parks then a ++ " parked" else a)
+    | _, _, _ => (y, "bad-op")
+  | ["ackdone", c, which] =>
     match parseSlot c with
     | some i =>
       let d := y.slot i
-      if !d.used || !d.gated then (y, "refused") else
-      let (s, outs) := listen y.srv d.sid 0 d.mask []
-      (({ y with srv := s }).setSlot i { d with gated := false, connected := true }, firstAck outs)
+      if !d.used || !d.parked.contains which then (y, "refused") else
+      -- the handler goes on: in the code that exists it has nothing left to do but wait for its end
+      (y.setSlot i { d with parked := d.parked.filter (· != which) }, "ok")
     | none => (y, "bad-op")
-  | ["subscribe", c, u] =>
-    match parseSlot c, parseUri u with
-    | some i, some u =>
-      let d := y.slot i
-      if !d.used || !d.connected then (y, "refused") else
-      if !d.modern then ({ y with srv := subscribe y.srv d.sid 99 u }, "ok") else
-      if d.rsubs.contains u then (y, "noop") else
-      let (s, outs) := listen y.srv d.sid (u + 1) [] [u]
-      (({ y with srv := s }).setSlot i { d with rsubs := d.rsubs ++ [u] }, firstAck outs)
-    | _, _ => (y, "bad-op")
   | ["unsubscribe", c, u] =>
     match parseSlot c, parseUri u with
     | some i, some u =>
       let d := y.slot i
-      if !d.used || !d.connected then (y, "refused") else
+      if !d.used || !d.connected || d.parked.contains s!"r{u}" then (y, "refused") else
       if !d.modern then ({ y with srv := unsubscribe y.srv d.sid u }, "ok") else
       if !d.rsubs.contains u then (y, "ok") else
       (({ y with srv := listenEnd y.srv d.sid (u + 1) }).setSlot i { d with rsubs := d.rsubs.filter (· != u) }, "ok")
@@ -291,7 +324,7 @@ def modelStep (y : Sys) (toks : List String) : Sys × String :=
     match parseSlot c with
     | some i =>
       let d := y.slot i
-      if !d.used || !d.connected || !d.held.isEmpty then (y, "refused") else
+      if !d.used || !d.connected || !d.held.isEmpty || !d.parked.isEmpty then (y, "refused") else
       (({ y with srv := close y.srv d.sid }).setSlot i {}, "ok")
     | none => (y, "bad-op")
   | ["rupdated", u] =>
@@ -381,6 +414,8 @@ structure MSlot where
   otherListenEnded : Bool := false  -- a per-URI listen of this session ended after `granted` was set (F19 shape)
   owed : List Kind := []
   skipped : List Kind := []      -- owed kinds for which a callback ran without reaching this (entitled) session
+  window : List String := []     -- listen handlers held right after the write of their ack ("m", "r<j>")
+  skippedAck : List Kind := []   -- … and the callback ran inside the window of the connect-time listen
   maxHandled : List (String × Nat) := []
   invalidated : List String := []
   suspect : List (String × Nat) := []
@@ -457,6 +492,13 @@ def checkRet (d : MSlot) (key : String) (v : Nat) (hit : Bool) (startMax : Nat) 
 
 def first (l : List (Option String)) : Option String := l.findSome? id
 
+/-- `T[c0=m c1=m] P[] … S[c0 c1]` ↦ [("T", ["c0=m", "c1=m"]), ("P", []), …]. -/
+def parseTables (impl : String) : List (String × List String) :=
+  (impl.splitOn "] ").map (fun piece =>
+    match piece.splitOn "[" with
+    | [name, body] => (name, words (body.replace "]" ""))
+    | _ => ("", []))
+
 def monitorStep (m : Mon) (toks : List String) (impl : String) : Mon × Option String :=
   match toks with
   | ["config", a, b, c, _] =>
@@ -504,9 +546,12 @@ def monitorStep (m : Mon) (toks : List String) (impl : String) : Mon × Option S
         -- unless a later callback reaches it
         let m := { m with slots := (List.range 3).map (fun i =>
           let d := m.slot i
-          if got i then ({ d with owed := d.owed.filter (· != k), skipped := d.skipped.filter (· != k) }).handled m (keysOfKind k)
+          if got i then ({ d with owed := d.owed.filter (· != k), skipped := d.skipped.filter (· != k),
+                                  skippedAck := d.skippedAck.filter (· != k) }).handled m (keysOfKind k)
           else if d.owed.contains k && entitledNow d k then
-            { d with skipped := if d.skipped.contains k then d.skipped else d.skipped ++ [k] }
+            { d with skipped := if d.skipped.contains k then d.skipped else d.skipped ++ [k],
+                     skippedAck := if d.modern && d.window.contains "m" && !d.skippedAck.contains k
+                                   then d.skippedAck ++ [k] else d.skippedAck }
           else { d with owed := d.owed.filter (· != k) }) }
         (m, viol)
   | ["connect", c, _, g, _] =>
@@ -514,21 +559,31 @@ def monitorStep (m : Mon) (toks : List String) (impl : String) : Mon × Option S
     | some i =>
       if impl.startsWith "ok" then (m.setSlot i { connected := true, modern := g == "modern" }, none) else (m, none)
     | none => (m, none)
-  | ["listen", c] =>
+  | "listen" :: c :: _ =>
     match parseSlot c with
     | some i =>
       let d := m.slot i
       match words impl with
-      | ["ack", ks] => (m.setSlot i { d with granted := parseMask ks, otherListenEnded := false }, none)
+      | "ack" :: ks :: rest =>
+        (m.setSlot i { d with granted := parseMask ks, otherListenEnded := false,
+                              window := if rest.contains "parked" then d.window ++ ["m"] else d.window }, none)
       | _ => (m, none)
     | none => (m, none)
-  | ["subscribe", c, u] =>
+  | "subscribe" :: c :: u :: _ =>
     match parseSlot c, parseUri u with
     | some i, some u =>
       let d := m.slot i
       let ok := if d.modern then (words impl).contains s!"u{u}" && impl.startsWith "ack" else impl == "ok"
-      if ok && !d.uris.contains u then (m.setSlot i { d with uris := d.uris ++ [u] }, none) else (m, none)
+      let d := if d.modern && impl.startsWith "ack" && (words impl).contains "parked"
+               then { d with window := d.window ++ [s!"r{u}"] } else d
+      if ok && !d.uris.contains u then (m.setSlot i { d with uris := d.uris ++ [u] }, none) else (m.setSlot i d, none)
     | _, _ => (m, none)
+  | ["ackdone", c, which] =>
+    match parseSlot c with
+    | some i =>
+      let d := m.slot i
+      if impl.startsWith "ok" then (m.setSlot i { d with window := d.window.filter (· != which) }, none) else (m, none)
+    | none => (m, none)
   | ["unsubscribe", c, u] =>
     match parseSlot c, parseUri u with
     | some i, some u =>
@@ -555,7 +610,9 @@ def monitorStep (m : Mon) (toks : List String) (impl : String) : Mon × Option S
           let d := m.slot i
           let want := d.connected && d.uris.contains u
           let n := (ds.filter (·.slot == i)).length
-          if want && n == 0 then some "C18: updated_reaches_exactly_subscribers: a session subscribed to the URI was not notified"
+          if want && n == 0 && d.modern && d.window.contains s!"r{u}" then
+            some "C18: ack_after_registration: the server acknowledged the session's subscription to the URI, but a ResourceUpdated call made while the listen handler was still held right after the acknowledgement write did not reach the session (the subscription is registered after it is acknowledged)"
+          else if want && n == 0 then some "C18: updated_reaches_exactly_subscribers: a session subscribed to the URI was not notified"
           else if !want && n > 0 then some "C18: updated_reaches_exactly_subscribers: a session not subscribed to the URI was notified"
           else if n > 1 then some "C18: updated_reaches_exactly_subscribers: a subscriber was notified more than once"
           else none)
@@ -612,14 +669,32 @@ def monitorStep (m : Mon) (toks : List String) (impl : String) : Mon × Option S
       (match parseSlot ((w.splitOn "=").headD "") with
        | some i => !(m.slot i).connected
        | none => false))
-    (m, if bad then some "C18: closed_sessions_forgotten: a subscription table or the session list still mentions a closed session" else none)
+    -- acked_stays_registered: what the implementation acknowledged (and the client has not ended) is in
+    -- the implementation's tables
+    let tabs := parseTables impl
+    let has (t : String) (e : String) : Bool := ((tabs.lookup t).getD []).contains e
+    let missing := (List.range 3).map (fun i =>
+      let d := m.slot i
+      if !d.connected then none else
+      let kindMiss := d.modern && d.granted.any (fun k => !has (kindLetter k).toUpper s!"c{i}=m")
+      let uriMiss := d.uris.any (fun u => !has s!"U{u}" (if d.modern then s!"c{i}=r{u}" else s!"c{i}=q"))
+      if (kindMiss && d.window.contains "m") || (d.modern && d.uris.any (fun u => d.window.contains s!"r{u}" && !has s!"U{u}" s!"c{i}=r{u}")) then
+        some "C18: ack_after_registration: the server has written the acknowledgement of a subscriptions/listen (the handler is held right after that write) but the subscription it acknowledges is not in the server's table"
+      else if kindMiss && d.otherListenEnded then
+        some "C18: F19 acked_stays_registered: the session's acknowledged list-changed subscription left the table when another subscriptions/listen of the same session ended"
+      else if kindMiss || uriMiss then
+        some "C18: acked_stays_registered: a subscription the server acknowledged, and the client has not ended, is missing from the server's table"
+      else none)
+    (m, first ((if bad then some "C18: closed_sessions_forgotten: a subscription table or the session list still mentions a closed session" else none) :: missing))
   | ["end"] =>
     let left := (List.range 3).map (fun i =>
       let d := m.slot i
       match Kind.all.find? (fun k => d.owed.contains k && entitledNow d k) with
       | none => none
       | some k =>
-        if d.modern && d.otherListenEnded then
+        if d.modern && d.skippedAck.contains k then
+          some "C18: ack_after_registration / at_least_one_after_burst: the session held the acknowledgement of its list-changed subscription when the callback took its snapshot (the listen handler was held right after the acknowledgement write), the snapshot did not include it, and no later notification reached it"
+        else if d.modern && d.otherListenEnded then
           some "C18: F19 at_least_one_after_burst: the session's list-changed subscription was dropped when another subscriptions/listen of the same session ended"
         else if d.skipped.contains k then
           some "C18: at_least_one_after_burst: callbacks ran after the last change but none of them notified this entitled session"
